@@ -23,6 +23,9 @@ type DKGRun struct {
 	// OnMachinePanic is called when an airgapped machine panics while answering (instead of the
 	// exploration failing); the branch is not continued.
 	OnMachinePanic func(s *worldx.State, node int, op *types.Operation, p *world.MachinePanic)
+	// OnRefusedResult is called when a node refuses to post the GENUINE answer of its machine
+	// (instead of the exploration failing); the branch is not continued.
+	OnRefusedResult func(s *worldx.State, node int, op *types.Operation, apiErr error)
 	// Linear explores only the canonical order (node 0 first) instead of all orders.
 	Linear bool
 	// Adversary may return board messages that somebody (the deviating participant) posts in
@@ -87,6 +90,10 @@ func (d *DKGRun) Explore(r *kit.Run, check func(s *worldx.State), terminal func(
 							continue
 						}
 						return nil, err
+					}
+					if apiErr != nil && mutate == nil && d.OnRefusedResult != nil {
+						d.OnRefusedResult(s, i, op, apiErr)
+						continue
 					}
 					if apiErr != nil && mutate == nil {
 						return nil, fmt.Errorf("node %d refused the genuine result of %s: %v", i, op.Type, apiErr)
